@@ -2,7 +2,8 @@
     Model: Ext/Model.v [get_subset]; spec: Ext/Spec.v [den], [valid]; region of the open finding N2 is excluded
     by the boolean hypothesis [no_trailing1] and shown to fail by [C04_subset_trailing1_refuted]. *)
 From Coq Require Import List Bool Arith NArith ZArith QArith Lia.
-From DV Require Import Common.Res Common.Str Common.Jv Ext.Types Ext.Seq Ext.Model Ext.Spec Ext.ValidFacts Ext.ProofsSubset.
+From DV Require Import Common.Res Common.Str Common.Jv Ext.Types Ext.Seq Ext.Model Ext.Spec Ext.ValidFacts Ext.ProofsSubset
+     Ext.Split Ext.ProofsSplit.
 Import ListNotations.
 Local Open Scope nat_scope.
 
@@ -71,4 +72,62 @@ Proof.
   split; [apply validb_valid; vm_compute; reflexivity|].
   split; [vm_compute; reflexivity|].
   repeat split; try (eexists; split; vm_compute; reflexivity); vm_compute; reflexivity.
+Qed.
+
+(** * Image level: NiftiWrapper.split (model Ext/Split.v) *)
+
+(** exactly as many pieces as the axis is long, in index order; piece [i] is [split_piece .. i] *)
+Theorem C04_split_pieces :
+  forall (V : Type) (veqb : V -> V -> bool) (vnone : V) (w : wimg) (e : ext V) (dim : option nat)
+         (ps : list (wimg * ext V)),
+    split veqb vnone w e dim = Ok ps ->
+    exists d n, split_dim w dim = Ok d /\ nth_error (wi_shape w) d = Some n /\ length ps = n /\
+      forall i dflt, i < n -> split_piece veqb vnone w e d i = Ok (nth i ps dflt).
+Proof. exact @split_pieces. Qed.
+
+(** piece [i]: image shape (axis dropped or singular, trailing singular dims trimmed), slice dim_info kept, affine
+    [add_trans], data = the [i]-th hyperplane, extension = [get_subset] along the corresponding meta dimension
+    (so that [C04_subset_den] gives its lookups) *)
+Theorem C04_split_piece :
+  forall (V : Type) (veqb : V -> V -> bool) (vnone : V) (w : wimg) (e : ext V) (d i : nat) (wi : wimg) (ri : ext V),
+    split_piece veqb vnone w e d i = Ok (wi, ri) ->
+    wi_shape wi = piece_shape (wi_shape w) d /\ wi_slice wi = wi_slice w /\
+    wi_aff wi = add_trans (wi_aff w) d i /\
+    wi_data wi = take_axis (prod_list (firstn d (wi_shape w))) (nth d (wi_shape w) 0)
+                           (prod_list (skipn (S d) (wi_shape w))) i (wi_data w) /\
+    exists meta_dim,
+      (if odim_is (wi_slice w) d then sdim (hdr_of e) = Some meta_dim else meta_dim = d) /\
+      get_subset veqb vnone e meta_dim i = Ok ri.
+Proof. exact @split_piece_spec. Qed.
+
+(** data: voxel (o, j) of piece [idx] is voxel (o, idx, j) of the parent (o / j = C-order offsets on the axes
+    before / after the split axis) *)
+Theorem C04_split_data :
+  forall (A : Type) (outer n inner idx : nat) (data : list A) (o j : nat) (d : A),
+    length data = outer * n * inner -> idx < n -> o < outer -> j < inner ->
+    nth (o * inner + j) (take_axis outer n inner idx data) d = nth ((o * n + idx) * inner + j) data d.
+Proof. exact @take_axis_nth. Qed.
+
+(** affine: linear part unchanged; for a spatial split voxel 0 of piece [idx] is where voxel [idx] of the parent was *)
+Theorem C04_split_affine :
+  forall (a : list (list Q)) (dim idx r c : nat),
+    length a = 4 -> Forall (fun row => length row = 4) a -> r < 4 -> c < 4 ->
+    nth c (nth r (add_trans a dim idx) []) 0%Q =
+    if (dim <? 3) && (r <? 3) && (c =? 3)
+    then (nth 3 (nth r a []) 0 + inject_Z (Z.of_nat idx) * nth dim (nth r a []) 0)%Q
+    else nth c (nth r a []) 0%Q.
+Proof. exact add_trans_entry. Qed.
+
+Definition ex_wimg : wimg := mk_wimg [2; 2; 2; 3; 2] (Some 1) ex_aff (map Z.of_nat (seq 0 48)).
+
+Example C04_split_nonvacuous :
+  exists ps, split jv_eqb JNull ex_wimg ex_ext (Some 1) = Ok ps /\ length ps = 2 /\
+    map (fun p => wi_shape (fst p)) ps = [[2; 1; 2; 3; 2]; [2; 1; 2; 3; 2]] /\
+    map (fun p => map (fun r => nth 3 r 0%Q) (wi_aff (fst p))) ps = [[-8; 3; 0; 1]%Q; [-8 + 1 * 0; 3 + 1 * 0; 0 + 1 * -1; 1]%Q] /\
+    map (fun p => firstn 4 (wi_data (fst p))) ps = [[0; 1; 2; 3]%Z; [12; 13; 14; 15]%Z] /\
+    exists ps4, split jv_eqb JNull ex_wimg ex_ext None = Ok ps4 /\ map (fun p => wi_shape (fst p)) ps4 = [[2; 2; 2; 3]; [2; 2; 2; 3]].
+Proof.
+  eexists. split; [vm_compute; reflexivity|]. split; [reflexivity|]. split; [reflexivity|].
+  split; [vm_compute; reflexivity|]. split; [vm_compute; reflexivity|].
+  eexists. split; vm_compute; reflexivity.
 Qed.
